@@ -49,6 +49,7 @@ def _provider(c, inputs):
 
 def h_unit(c, label, mn, qual, inputs="symbolic"):
     sf.install_float_mode(c, "real")
+    c.real_mul_uf = True
     prov = _provider(c, inputs)
     undo_math = sharedsym.install_uf_math()
     found = shared.discover()
